@@ -123,7 +123,15 @@ def runOp (impl : String) : P Verdict := do
   pure { modelEq := implN == model, specOk := if unspec then none else some specOk,
          kf := kf, tag := tag, model := model, spec := s!"r={field impl "s"}" }
 
+/-- `C15.par kind workers port deny nframes nseq <sequential filtered results>` — the analyzers' parallel path
+with the same filter must deliver exactly the sequential filtered results (which `C15.run` ties to the
+specification). -/
+def par (impl : String) : P Verdict := do
+  let kind ← tok; let _ ← nat; let _ ← nat; let deny ← bool; let _ ← nat; let nseq ← nat; let seq ← text
+  let model := s!"{nseq} {seq}"
+  pure (verdictOf impl model (some model) [] s!"par:{kind}:{if deny then "deny" else "allow"}:{if nseq == 0 then "empty" else "results"}")
+
 def handlers : List (String × (String → P Verdict)) :=
-  [("C15.frame", frame), ("C15.run", runOp)]
+  [("C15.frame", frame), ("C15.run", runOp), ("C15.par", par)]
 
 end Huginn.Drv.C15
